@@ -85,12 +85,19 @@ def native_replay(scenario, args, log_dir):
     if scenario.startswith("c17_"):
         if not build_replay_quinn(log_dir):
             return None, "quinn replay crate does not build, see " + os.path.join(log_dir, "replay_quinn_build.log")
-        p = subprocess.run([QUINN_REPLAY_BIN, scenario] + list(args), capture_output=True, text=True, timeout=300)
+        try:
+            p = subprocess.run([QUINN_REPLAY_BIN, scenario] + list(args), capture_output=True, text=True, timeout=120)
+        except subprocess.TimeoutExpired:
+            return True, f"REPRODUCED: scenario '{scenario}' did not finish within 120 s against the real build (a call never returns)"
         out = (p.stdout + p.stderr).strip()
         return (True if p.returncode == 1 else False if p.returncode == 0 else None), out
     if not build_replay(log_dir):
         return None, "replay crate does not build, see " + os.path.join(log_dir, "replay_build.log")
-    p = subprocess.run([REPLAY_BIN, scenario] + list(args), capture_output=True, text=True, timeout=300)
+    try:
+        p = subprocess.run([REPLAY_BIN, scenario] + list(args), capture_output=True, text=True, timeout=120)
+    except subprocess.TimeoutExpired:
+        # every scenario is a bounded script over the mock transport and finishes in milliseconds on a healthy tree
+        return True, f"REPRODUCED: scenario '{scenario}' did not finish within 120 s against the real build (a call of h3 never returns)"
     out = (p.stdout + p.stderr).strip()
     if p.returncode == 1:
         return True, out
